@@ -52,7 +52,7 @@ SPEC = {
           (Z, r"zbdd_not|zbdd_apply|op_sem|zbdd_ite|zbdd_var|zbdd_cofactors|bool_view")], [("c02", ["bdd", "bcdd", "zbdd"])]),
  "C03": ([("OxiddModel.Bdd.PropertiesHistory", r"inv_|stored_nodes|l2v_bij|nodecount|step_|gc_"), "OxiddModel.Bdd.Properties", "OxiddModel.Bdd.PropertiesC12", (B, r"_nf$|reduce"), (Z, r"_nf|nf'")], [("c03", ["bdd", "bcdd", "zbdd"])]),
  "C04": ([(GEN + "ObBcdd", r"dispatch"), "OxiddModel.Bdd.PropertiesC04", (B, r"quant|restrict|applyQuant|dispatch|subst|varset|cube_sem|qsem"), (Z, r"restrict")], [("c04", ["bdd", "bcdd", "zbdd"])]),
- "C05": (["OxiddModel.Bdd.PropertiesC05"], [("c05", ["bdd", "bcdd", "zbdd"])]),
+ "C05": (["OxiddModel.Bdd.PropertiesC05", "OxiddModel.Alloc.Properties", "OxiddModel.Alloc.PropertiesTrace"], [("c05", ["bdd", "bcdd", "zbdd"])]),
  "C06": ([(GEN + "ObBdd", r"memo_"), (GEN + "ObMtbdd", r"memo_"), (GEN + "ObTdd", r"memo_"), "OxiddModel.Bdd.PropertiesC06", "OxiddModel.Bcdd.PropertiesC06", "OxiddModel.Zbdd.PropertiesC06"], [("c06", ["bdd", "bcdd", "zbdd"])]),
  "C07": ([GEN + "ObOrderings", "OxiddModel.Bdd.PropertiesC07", ("OxiddModel.Locks.Properties", r"acquisitions_ranked|no_deadlock|no_cyclic_wait|try_never_blocks|holds_buckets|exclusive_|reentrant_|pool_takes"), ("OxiddModel.Locks.PropertiesTrace", r"trace_|ok_toProg|accepts_|follows_|stepThread_trace|evWhy|driver_|ctxTable|tableContexts")], [("c07", ["bdd", "bcdd", "zbdd"])]),
  "C08": (["OxiddModel.Reorder.Properties", ("OxiddModel.Reorder.PropertiesStore", r"swapS_|swapsS_|bubbleDownS|setVarOrderS"), ("OxiddModel.Reorder.PropertiesStoreC", r"swapC_|swapsC_|setVarOrderC")], [("c08", ["bdd", "bcdd", "zbdd"])]),
